@@ -17,8 +17,8 @@ MANIFEST = dict(
               'worlds replayed on real BSP objects; implementation records validated by TLC (BspTablesTrace)',
     category='model_checking',
     text='TLC checks the laws of the visibility run-length code over 2827 run patterns, the index builders as a table machine '
-         '(indexes handed out stay valid, tables only grow) and reports where the transcription of find_or_extend deviates from '
-         'that design. Every transition of the table machine is executed on the real functions. Abstract cross-reference worlds '
+         '(indexes handed out stay valid, tables only grow; the laws hold on every table of the bounded domain and reject the '
+         'tail-prefix variant of find_or_extend). Every transition of the table machine is executed on the real functions. Abstract cross-reference worlds '
          '(planes, texinfo/texdata/texture names, edges, primitives, original/split/HDR faces, brushes and sides, leafs, nodes, '
          'water info, overlays, brush models, static props - 2592 enumerated by TLC plus seeded random ones) are realised as real '
          'objects, assigned to a synthesised empty BSP of each layout, saved and re-read; TLC predicts every shared table and every '
@@ -100,13 +100,15 @@ def run(tier: str, seed: int) -> int:
         wf = work.path('worlds.json')
         wf.write_text(json.dumps(worlds))
         cov['tlc_worlds'] = len(worlds)
-        cov['foe_diagnosis'] = {k: diag['foe'][k] for k in ('deviating', 'tailOnly', 'cases', 'witness')}
+        cov['foe_diagnosis'] = {k: diag['foe'][k] for k in ('lawBroken', 'cases', 'tailCases', 'tailCaught')}
+        if not diag['foe']['tailCases'] or not diag['foe']['tailCaught']:
+            raise core.MachineryError(f'vacuous index-builder laws: the excluded tail-prefix variant is not told apart: {diag["foe"]}')
         cov['prop_sizes'] = diag['propsize']['sizes']
         marks.append(('tlc-enumeration', round(time.time() - t0, 1)))
         model_sigs = []
-        if diag['foe']['deviating']:
-            model_sigs.append({'kind': 'model', 'action': 'foe', 'clause': 'model.foeDeviates', 'item': 'find_or_extend',
-                               'field': 'tailOnly' if diag['foe']['tailOnly'] else 'other', 'witness': diag['foe']['witness']})
+        if diag['foe']['lawBroken']:
+            model_sigs.append({'kind': 'model', 'action': 'foe', 'clause': 'model.finderLaw', 'item': 'find_or_extend',
+                               'field': str(diag['foe']['lawBroken'])})
         # 2. the real code
         parts = 16
         jobs = [('funcs', ['funcs', ef, work.path('funcs.ndjson')]), ('vis', ['vis', work.path('vis.ndjson')]),
